@@ -118,7 +118,88 @@ def op_read_count(mod, job):
     return {"ok": err is None, "error": err, "delivered": delivered}
 
 
-OPS = {"copy": op_copy, "read_count": op_read_count}
+def op_steps(mod, job):
+    """Drives the abstract writer/reader base class (the step state machine) with stub
+    implementations and a scripted source; reports what happened op by op, stopping at the first
+    exception."""
+    proto = job["proto"]
+    counts = job["counts"]
+    out = []
+    if job["side"] == "writer":
+        base = getattr(mod, proto + "WriterBase")
+        names = [k[len("write_"):] for k in base.__dict__ if k.startswith("write_")]
+        schema = json.loads(base.schema)["protocol"]["sequence"]
+        is_stream = [isinstance(s["type"], dict) and "stream" in s["type"] for s in schema]
+        ns = {"_close": lambda self: None, "_end_stream": lambda self: None}
+        for name, st in zip(names, is_stream):
+            if st:
+                ns["_write_" + name] = lambda self, value: [x for x in value]
+            else:
+                ns["_write_" + name] = lambda self, value: None
+        w = type("StubWriter", (base,), ns)()
+        for op in job["ops"]:
+            try:
+                k = op["step"]
+                if op["kind"] == "C":
+                    w.close()
+                elif op["kind"] == "W":
+                    getattr(w, "write_" + names[k])([7] if is_stream[k] else 7)
+                elif op["kind"] == "B":
+                    getattr(w, "write_" + names[k])([7] * op.get("n", 0))
+                else:
+                    raise ValueError("bad op")
+                out.append({"ok": True})
+            except BaseException as e:  # noqa
+                out.append({"ok": False, "err": "%s: %s" % (type(e).__name__, str(e)[:200])})
+                break
+        return {"ok": True, "extra": out}
+    base = getattr(mod, proto + "ReaderBase")
+    names = [k[len("read_"):] for k in base.__dict__ if k.startswith("read_")]
+    schema = json.loads(base.schema)["protocol"]["sequence"]
+    is_stream = [isinstance(s["type"], dict) and "stream" in s["type"] for s in schema]
+    ns = {"_close": lambda self: None}
+    for idx, (name, st) in enumerate(zip(names, is_stream)):
+        if st:
+            ns["_read_" + name] = (lambda self, _i=idx: (1000 * (_i + 1) + j for j in range(counts[_i])))
+        else:
+            ns["_read_" + name] = (lambda self, _i=idx: 100 + _i)
+    r = type("StubReader", (base,), ns)()
+    cur = None
+    for op in job["ops"]:
+        try:
+            k = op["step"]
+            if op["kind"] == "C":
+                r.close()
+                out.append({"ok": True})
+            elif op["kind"] == "R":
+                v = getattr(r, "read_" + names[k])()
+                if is_stream[k]:
+                    cur = iter(v)
+                    out.append({"ok": True})
+                else:
+                    out.append({"ok": True, "items": [v]})
+            elif op["kind"] == "I":
+                items = []
+                exhausted = False
+                n = op.get("n", 0)
+                while n < 0 or len(items) < n:
+                    try:
+                        items.append(next(cur))
+                    except StopIteration:
+                        exhausted = True
+                        break
+                if not exhausted and n >= 0 and False:
+                    pass
+                out.append({"ok": True, "items": items, "result": exhausted})
+            else:
+                raise ValueError("bad op")
+        except BaseException as e:  # noqa
+            out.append({"ok": False, "err": "%s: %s" % (type(e).__name__, str(e)[:200])})
+            break
+    return {"ok": True, "extra": out}
+
+
+OPS = {"copy": op_copy, "read_count": op_read_count, "steps": op_steps}
 
 
 def main():
